@@ -11,6 +11,7 @@ import (
 	"github.com/tyler-smith/go-bip39"
 
 	"github.com/lidofinance/dc4bc/airgapped"
+	"github.com/lidofinance/dc4bc/client/services/node"
 	"github.com/lidofinance/dc4bc/client/types"
 	"github.com/lidofinance/dc4bc/storage"
 )
@@ -26,6 +27,16 @@ func init() {
 }
 
 var yieldWorld atomic.Pointer[World]
+
+func init() {
+	// statement-level yield points of the node's message handler (hook H6) become
+	// gates where a scenario asks for them (World.NodeYields)
+	node.SimYield = func(point string) {
+		if w := yieldWorld.Load(); w != nil && w.NodeYields {
+			w.Gate("node."+point, "")
+		}
+	}
+}
 
 // AirNode is one participant's airgapped machine (real airgapped.Machine on a
 // real LevelDB directory, real result files).
